@@ -123,7 +123,7 @@ def _worker_entry(args):
         return fn(wseed, **kwargs)
     except Exception:
         r = Result()
-        r.inconclusive.append("worker crashed (harness error): " + traceback.format_exc()[-1500:])
+        r.inconclusive.append("worker crashed (harness error): " + traceback.format_exc()[-2500:])
         return r
 
 
@@ -181,7 +181,7 @@ def finish(prop, tier, seed, level, result, rule, t0, assumptions=None, known=No
         print("  sig=%s occurrences=%d" % (sig, len(vs)))
         print("  " + str(v["detail"])[:1500].replace("\n", "\n  "))
     for s in result.inconclusive[:20]:
-        print("INCONCLUSIVE: " + s[:1500])
+        print("INCONCLUSIVE: " + s[:3000])
     cov = {
         "evaluations": int(result.evaluations),
         "distinct_nontrivial": len(result.cells),
